@@ -308,16 +308,27 @@ func linearizable(evs []*event, ops map[string]opDef, keyOf func(e *event) strin
 
 // ---------- FeeQuotes scenarios ----------
 
+func feeQuotesBodies(sc scenario) []func() {
+	b, _ := feeQuotesBodiesNotes(sc)
+	return b
+}
+
 func runFeeQuotes(sc scenario, prefix []int) (execution, []string) {
+	bodies, notes := feeQuotesBodiesNotes(sc)
+	res := vsync.Run(prefix, bodies)
+	return execution{res: res}, *notes
+}
+
+func feeQuotesBodiesNotes(sc scenario) ([]func(), *[]string) {
 	// observable consistency for the quotes map: every read returns a quote that some write stored
 	fqs := bt.NewFeeQuotes("m1")
 	q1, _ := fqs.Quote("m1")
 	q2 := bt.NewFeeQuote()
 	f9 := &bt.Fee{FeeType: bt.FeeTypeStandard, MiningFee: bt.FeeUnit{Satoshis: 9, Bytes: 9}}
 	names := map[*bt.FeeQuote]string{q1: "Q1", q2: "Q2"}
-	var notes []string
+	notes := &[]string{}
 	var mu sync.Mutex
-	note := func(s string) { mu.Lock(); notes = append(notes, s); mu.Unlock() }
+	note := func(s string) { mu.Lock(); *notes = append(*notes, s); mu.Unlock() }
 	do := func(op string) {
 		switch op {
 		case "Quote":
@@ -366,8 +377,7 @@ func runFeeQuotes(sc scenario, prefix []int) (execution, []string) {
 			}
 		})
 	}
-	res := vsync.Run(prefix, bodies)
-	return execution{res: res}, notes
+	return bodies, notes
 }
 
 // ---------- engine scenarios ----------
@@ -745,8 +755,7 @@ func main() {
 }
 
 // freeRun executes the scenario bodies without the scheduler (real mutexes, real
-// goroutines); meant to be built with -race. MarshalJSON/UnmarshalJSON scenarios are
-// skipped (their race is a recorded known finding).
+// goroutines); meant to be built with -race.
 func freeRun() {
 	iters := 200
 	if len(os.Args) > 2 {
@@ -755,9 +764,6 @@ func freeRun() {
 	ops := fqOps()
 	n := 0
 	for _, sc := range scenarios(false) {
-		if sc.Kind == "feequote" && sc.racy(ops) {
-			continue
-		}
 		for it := 0; it < iters; it++ {
 			var wg sync.WaitGroup
 			switch sc.Kind {
@@ -785,6 +791,15 @@ func freeRun() {
 							_ = eng.Execute(cases[idx].opts()...)
 						}
 					}(th)
+				}
+			case "feequotes":
+				bodies := feeQuotesBodies(sc)
+				for _, b := range bodies {
+					wg.Add(1)
+					go func(b func()) {
+						defer wg.Done()
+						b()
+					}(b)
 				}
 			default:
 				continue
